@@ -68,8 +68,11 @@ func (c *Compiler) validateGrouping(
 		return fmt.Errorf("Grouping cycle detected in: grouping %s", g.Name())
 	}
 
+	// group_map holds the groupings on the current chain of uses only, so
+	// that a grouping used twice on different chains is not taken for a cycle.
 	group_map[g.Name()] = true
-	for _, u := range g.ChildrenByType(parse.NodeUses) {
+	defer delete(group_map, g.Name())
+	for _, u := range usesWithin(g) {
 		gname := u.ArgIdRef()
 		mod, err := u.GetModuleByPrefix(
 			gname.Space, c.modules, c.skipUnknown)
@@ -83,7 +86,7 @@ func (c *Compiler) validateGrouping(
 			continue
 		}
 
-		ug, ok := g.LookupGrouping(gname.Local)
+		ug, ok := u.LookupGrouping(gname.Local)
 		if !ok {
 			return fmt.Errorf(
 				"Unknown grouping (grouping %s) referenced from grouping %s",
@@ -96,6 +99,23 @@ func (c *Compiler) validateGrouping(
 	}
 
 	return nil
+}
+
+// usesWithin returns the uses statements that are expanded whenever n is
+// used: those anywhere below n, except inside nested grouping definitions
+// (which are validated on their own).
+func usesWithin(n parse.Node) []parse.Node {
+	var uses []parse.Node
+	for _, ch := range n.Children() {
+		switch ch.Type() {
+		case parse.NodeGrouping:
+			continue
+		case parse.NodeUses:
+			uses = append(uses, ch)
+		}
+		uses = append(uses, usesWithin(ch)...)
+	}
+	return uses
 }
 
 func isMandatory(nod parse.Node) bool {
